@@ -350,6 +350,16 @@ func checkFault(c RunCase) fw.Outcome {
 			out.Violation = fmt.Sprintf("%q fault %d: %s", c.Src, k, msg)
 			return out
 		}
+		// the same callback, if it is a value fetch, answering with a nil datum and no error: still a value or an error
+		if k <= len(tr0.Trace) && tr0.Trace[k-1].Op == "GetValue" {
+			trn := &tree.Tree{NilAt: k}
+			resn := xpath.NewCtxFromCurrent(context.Background(), m, trn.At(c.Ctx)).Run()
+			if msg := accessorsSafe(resn); msg != "" {
+				out.Violation = fmt.Sprintf("%q at %s: value fetch %d of %d answered (nil, nil): %s", c.Src, c.Ctx, k, n, msg)
+				return out
+			}
+			out.Labels = append(out.Labels, "nil-datum")
+		}
 	}
 	return out
 }
@@ -357,7 +367,7 @@ func checkFault(c RunCase) fw.Outcome {
 var faultProp = fw.Register(&fw.Prop[RunCase]{
 	ID: "C05", Name: "fault",
 	Rule: "for each (machine, context) from the run generator, the fault-free run is executed to count its N data-tree callbacks, then EVERY k in 1..N is injected as a single fault " +
-		"(Navigate / GetValue / FollowLeafRef / BreadthSearch fail with a unique sentinel); oracle: the result carries exactly that error (errors.As or its unique text) and every accessor returns it; " +
+		"(Navigate / GetValue / FollowLeafRef / BreadthSearch fail with a unique sentinel; a GetValue additionally answers with a nil datum and no error); oracle: the result carries exactly that error (errors.As or its unique text) and every accessor returns it, a nil datum still gives a value or an error; " +
 		"non-trivial = N >= 2; distinct by (expression, context)",
 	Gen: genRun, Check: checkFault, Weight: 0.3,
 })
